@@ -1957,19 +1957,27 @@ class Compiler:
     def _enter_assignment(self, names):
         for name in names:
             yield from template(
-                "BACKUP = get(KEY, __marker)",
+                "BACKUP = get(KEY, __marker)\n"
+                "GLOBAL = rcontext.get(KEY, __marker)",
                 BACKUP=identifier("backup_%s" % name, id(names)),
+                GLOBAL=identifier("global_%s" % name, id(names)),
                 KEY=ast.Constant(str(name)),
             )
 
     def _leave_assignment(self, names):
+        # If the binding hidden by the local was the global one and it
+        # has been redefined in the meantime, the new definition is the
+        # one that becomes visible again.
         for name in names:
             yield from template(
                 "if BACKUP is __marker:\n"
                 "    del econtext[KEY]\n"
                 "    if KEY in rcontext: econtext[KEY] = rcontext[KEY]\n"
+                "elif BACKUP is GLOBAL:\n"
+                "    econtext[KEY] = rcontext[KEY]\n"
                 "else:\n"
                 "    econtext[KEY] = BACKUP",
                 BACKUP=identifier("backup_%s" % name, id(names)),
+                GLOBAL=identifier("global_%s" % name, id(names)),
                 KEY=ast.Constant(str(name)),
             )
